@@ -517,7 +517,7 @@ func transportScenario(r *rec, rng *rand.Rand, idx int) {
 	tr := &fphttp2.Transport{AllowHTTP: true, DialTLSContext: func(ctx context.Context, network, addr string, _ *tls.Config) (net.Conn, error) {
 		return net.Dial(network, addr)
 	}}
-	defer tr.CloseIdleConnections()
+	defer func() { go tr.CloseIdleConnections() }() // not waited for: a transport that is stuck must not take the recording with it
 	nreq := 1 + rng.Intn(3)
 	sizes := []int{0, 1, 100, 20000, 70000, 200000}
 	// every third scenario is a fixed one: a large frame size is announced, the upload starts against a tiny window, the frame size is
@@ -660,6 +660,7 @@ func transportScenario(r *rec, rng *rand.Rand, idx int) {
 		// finish the warm-up request, then start the upload proper
 		for i := 0; i < 50 && len(ids) == 0; i++ {
 			if err := barrier(); err != nil {
+				r.notes = append(r.notes, fmt.Sprintf("tsend-%d: %v", idx, err))
 				return
 			}
 			time.Sleep(2 * time.Millisecond)
@@ -668,18 +669,25 @@ func transportScenario(r *rec, rng *rand.Rand, idx int) {
 			r.ev(map[string]any{"op": "drained", "s": ids[0]})
 			conn.Write(h2raw.Headers(ids[0], true, h2raw.Block([]h2raw.HF{{":status", "200"}}), nil, 0))
 			responded[ids[0]] = true
-			<-done
+			select {
+			case <-done:
+			case <-time.After(5 * time.Second):
+				r.notes = append(r.notes, fmt.Sprintf("tsend-%d: the warm-up RoundTrip did not finish", idx))
+				return
+			}
 			finished++
 		}
 		nreq = 2
 		launch(200000, rng.Intn(2) == 0)
 		for i := 0; i < 50 && len(ids) < 2; i++ { // wait for the upload to start
 			if err := barrier(); err != nil {
+				r.notes = append(r.notes, fmt.Sprintf("tsend-%d: %v", idx, err))
 				return
 			}
 			time.Sleep(5 * time.Millisecond)
 		}
 		if err := settings(h2raw.Setting{ID: 5, Val: 16384}); err != nil {
+			r.notes = append(r.notes, fmt.Sprintf("tsend-%d: %v", idx, err))
 			return
 		}
 	}
@@ -701,11 +709,13 @@ func transportScenario(r *rec, rng *rand.Rand, idx int) {
 		case k < 8:
 			v := []uint32{0, 5, 4000, 65535, 100000}[rng.Intn(5)]
 			if err := settings(h2raw.Setting{ID: 4, Val: v}); err != nil {
+				r.notes = append(r.notes, fmt.Sprintf("tsend-%d: %v", idx, err))
 				return
 			}
 		default:
 			v := []uint32{16384, 32768, 65536, 16384}[rng.Intn(4)]
 			if err := settings(h2raw.Setting{ID: 5, Val: v}); err != nil {
+				r.notes = append(r.notes, fmt.Sprintf("tsend-%d: %v", idx, err))
 				return
 			}
 		}
@@ -714,6 +724,7 @@ func transportScenario(r *rec, rng *rand.Rand, idx int) {
 	conn.Write(h2raw.WindowUpdate(0, 1<<24))
 	r.ev(map[string]any{"op": "wu", "s": 0, "n": 1 << 24, "sure": false})
 	if err := settings(h2raw.Setting{ID: 4, Val: 1 << 24}); err != nil {
+		r.notes = append(r.notes, fmt.Sprintf("tsend-%d: %v", idx, err))
 		return
 	}
 	deadline := time.Now().Add(15 * time.Second)
@@ -766,7 +777,7 @@ func transportRecvScenario(r *rec, rng *rand.Rand, idx int) {
 	tr := &fphttp2.Transport{AllowHTTP: true, DialTLSContext: func(ctx context.Context, network, addr string, _ *tls.Config) (net.Conn, error) {
 		return net.Dial(network, addr)
 	}}
-	defer tr.CloseIdleConnections()
+	defer func() { go tr.CloseIdleConnections() }() // not waited for: a transport that is stuck must not take the recording with it
 	total := []int{1, 5000, 70000, 200000}[rng.Intn(4)]
 	early := rng.Intn(2) == 0 // read a little, then close the body
 	keep := []int{0, 1, 3000}[rng.Intn(3)]
@@ -900,10 +911,10 @@ func main() {
 		if os.Getenv("VERIF_TIER") == "thorough" {
 			nt = 200
 		}
-		for i := 0; i < nt; i++ {
+		for i := 0; i < nt && len(r.notes) == 0; i++ { // a scenario that could not run to its end ends the recording (the note makes it inconclusive)
 			transportScenario(r, rng, i)
 		}
-		for i := 0; i < nt; i++ {
+		for i := 0; i < nt && len(r.notes) == 0; i++ {
 			transportRecvScenario(r, rng, 5000+i)
 		}
 		f.Close()
